@@ -135,24 +135,48 @@ Fixpoint alt_run (run : expr -> bool -> bool -> mstate -> option mres)
       end
   end.
 
+(** ImplicitPush[body, rule]: what a rule's code does, inlined or inside its function *)
+Definition ipush_run (run : expr -> bool -> bool -> mstate -> option mres)
+                     (r : nat) (pd mk : bool) (st : mstate) : option mres :=
+  match nth_error g r with
+  | Some (RBody b) =>
+      let p0 := pos st in
+      match run b pd mk st with
+      | Some (Ret true st1) => Some (Ret true (add o r p0 st1))
+      | x => x
+      end
+  | Some (RAct k) =>
+      if o_ast o then Some (Ret true (add o r (pos st) st))
+      else Some (Ret true (log_action k st))
+  | _ => Some Crash
+  end.
+
+(** the rule function: memo check, save, body, memoize, restore on failure *)
+Definition rule_fn (run : expr -> bool -> bool -> mstate -> option mres) (r : nat) (st : mstate) : option mres :=
+  match (if o_ast o then lookup (memo st) r (pos st) else None) with
+  | Some m => Some (memoized m st)
+  | None =>
+      let p0 := pos st in let t0 := tix st in
+      match ipush_run run r false false st with
+      | Some (Ret true st1) => Some (Ret true (if o_ast o then memoize o r p0 t0 true st1 else st1))
+      | Some (Ret false st1) => Some (Ret false (restore p0 t0 (if o_ast o then memoize o r p0 t0 false st1 else st1)))
+      | x => x
+      end
+  end.
+
+(** a call site: "if !_rules[r]() { goto ko }", or just "_rules[r]()" when CheckAlwaysSucceeds *)
+Definition call_run (run : expr -> bool -> bool -> mstate -> option mres) (r : nat) (st : mstate) : option mres :=
+  if o_asu o r then
+    match rule_fn run r st with
+    | Some (Ret _ st1) => Some (Ret true st1)
+    | x => x
+    end
+  else rule_fn run r st.
+
 Fixpoint run_f (n : nat) (e : expr) (pd mk : bool) (st : mstate) {struct n} : option mres :=
   match n with
   | O => None
   | S n =>
-    (* ImplicitPush[body, rule]: what a rule's code does, inlined or inside its function *)
-    let ipush (r : nat) (pd mk : bool) (st : mstate) : option mres :=
-      match nth_error g r with
-      | Some (RBody b) =>
-          let p0 := pos st in
-          match run_f n b pd mk st with
-          | Some (Ret true st1) => Some (Ret true (add o r p0 st1))
-          | x => x
-          end
-      | Some (RAct k) =>
-          if o_ast o then Some (Ret true (add o r (pos st) st))
-          else Some (Ret true (log_action k st))
-      | _ => Some Crash
-      end in
     match e with
     | EDot =>
         if pd then Some (Ret true st)
@@ -164,25 +188,8 @@ Fixpoint run_f (n : nat) (e : expr) (pd mk : bool) (st : mstate) {struct n} : op
         if pd then Some (Ret true (advance st))
         else Some (mterm (in_range lo hi) st)
     | EName r =>
-        if o_inline o r then ipush r pd mk st
-        else
-          let res :=
-            match (if o_ast o then lookup (memo st) r (pos st) else None) with
-            | Some m => Some (memoized m st)
-            | None =>
-                let p0 := pos st in let t0 := tix st in
-                match ipush r false false st with
-                | Some (Ret true st1) => Some (Ret true (if o_ast o then memoize o r p0 t0 true st1 else st1))
-                | Some (Ret false st1) => Some (Ret false (restore p0 t0 (if o_ast o then memoize o r p0 t0 false st1 else st1)))
-                | x => x
-                end
-            end in
-          if o_asu o r then
-            match res with
-            | Some (Ret _ st1) => Some (Ret true st1)
-            | x => x
-            end
-          else res
+        if o_inline o r then ipush_run (run_f n) r pd mk st
+        else call_run (run_f n) r st
     | EPred k => Some (Ret (penv k (pos st)) st)
     | EState _ | EAct _ | ENil => Some (Ret true st)
     | ESeq es => seq_run (run_f n) es pd mk st
